@@ -15,7 +15,7 @@ def classes : List Cls := [
   ⟨"Constant", "src/spox/_shape.py", ["Natural"], ["dataclass(frozen=True)"], ["__le__", "to_simple"]⟩,
   ⟨"Natural", "src/spox/_shape.py", [], ["dataclass(frozen=True)"], ["__le__", "from_onnx", "from_simple", "simple_from_onnx", "simple_to_onnx", "to_onnx", "to_simple"]⟩,
   ⟨"Shape", "src/spox/_shape.py", [], ["dataclass(frozen=True)"], ["__bool__", "__getitem__", "__le__", "broadcast", "can_broadcast", "from_onnx", "from_simple", "maybe_rank", "rank", "to_onnx", "to_simple"]⟩,
-  ⟨"Unknown", "src/spox/_shape.py", ["Natural"], ["dataclass(frozen=True)"], ["__le__", "to_simple"]⟩,
+  ⟨"Unknown", "src/spox/_shape.py", ["Natural"], ["dataclass(frozen=True)"], ["__le__", "attr:label", "to_simple"]⟩,
   ⟨"Optional", "src/spox/_type_system.py", ["Type"], ["dataclass(frozen=True)"], ["_subtype", "_to_onnx"]⟩,
   ⟨"Sequence", "src/spox/_type_system.py", ["Type"], ["dataclass(frozen=True)"], ["_subtype", "_to_onnx"]⟩,
   ⟨"Tensor", "src/spox/_type_system.py", ["Type"], ["dataclass(frozen=True)"], ["__init__", "_subtype", "_to_onnx", "dtype", "shape"]⟩,
